@@ -223,7 +223,7 @@ def plan(tier: str) -> dict:
                                                          "bad_kind": bad_kind}})
     return {
         "runs": 2000 if tier == "quick" else 100000,
-        "budget": 120 if tier == "quick" else 2400,
+        "budget": 120 if tier == "quick" else 900,
         "cases": cases,
         "chunk": 8,
         "rule": f"All sequences up to length {n} over the reduced ASGI send alphabet ({len(HTTP_SYMBOLS)} HTTP symbols, "
